@@ -3,6 +3,23 @@ from lib.gen import *
 
 TAGS = [0, 4, 10, 10, 10, 16]
 
+# AEAD mode: while set, rand_policy / default_policy produce AES-GCM policies (RFC 7714: cipher GCM-128/256 with a
+# 12-octet salt, NULL auth whose tag length 16 or 8 is the GCM tag length) — used by the families that run in the
+# OpenSSL configuration, where those cipher types exist
+AEAD = False
+
+def gcm_cp(bits=128, tag=16, serv=3):
+    return cp(cipher=GCM128 if bits == 128 else GCM256, keylen=28 if bits == 128 else 44, auth=NULL_AUTH, authkeylen=0, taglen=tag, serv=serv)
+
+def with_aead(fn, *a, **kw):
+    """run a script generator with AEAD mode on"""
+    global AEAD
+    AEAD = True
+    try:
+        return fn(*a, **kw)
+    finally:
+        AEAD = False
+
 def rand_key(rng, n):
     return bytes(rng.randrange(256) for _ in range(n))
 
@@ -57,12 +74,18 @@ def rand_crypto(rng, valid=True, for_rtcp=False):
 def rand_policy(rng, ssrc=None, ssrc_type=SSRC_SPECIFIC, valid=True, mki=None, safe_tags=True, allow_xtn=True, allow_cryptex=True):
     rtp = rand_crypto(rng, valid or rng.random() < 0.5)
     rtcp = rand_crypto(rng, True, for_rtcp=True)
+    if AEAD:
+        bits = rng.choice([128, 128, 256])
+        rtp = gcm_cp(bits, rng.choice([16, 16, 8]), rtp[5])
+        rtcp = gcm_cp(bits, rng.choice([16, 16, 8]), rtcp[5])
     if safe_tags:
         # tag lengths above SRTP_MAX_TAG_LEN and key lengths above 256 are exercised by C10 only
         rtp = rtp[:4] + (min(rtp[4], 16),) + rtp[5:]
         rtcp = rtcp[:4] + (min(rtcp[4], 16),) + rtcp[5:]
     klen = max(rtp[1], rtcp[1], 30 if NULL_CIPHER in (rtp[0], rtcp[0]) else 0,
                46 if ICM256 in (rtp[0], rtcp[0]) else 0)
+    if AEAD:
+        klen = rtp[1]
     use_mki = rng.random() < 0.3 if mki is None else mki
     if use_mki:
         msz = rng.choice([1, 2, 4, 4, 8, 16, 128])
@@ -113,6 +136,11 @@ def ssrc_pool(rng, n):
 def default_policy(rng, ssrc, **kw):
     d = dict(ssrc_type=SSRC_SPECIFIC, ssrc=ssrc, rtp=cp(), rtcp=cp(), keys=[(rand_key(rng, 30), b"")], use_mki=False,
              mki_size=0, window=128, allow_repeat=False, cryptex=False, enc_xtn=b"", use_key_field=True, valid=True)
+    if AEAD and "rtp" not in kw and "rtcp" not in kw:
+        bits = rng.choice([128, 128, 256])
+        d["rtp"] = gcm_cp(bits, rng.choice([16, 16, 8])); d["rtcp"] = gcm_cp(bits, rng.choice([16, 16, 8]))
+        if "keys" not in kw:
+            d["keys"] = [(rand_key(rng, 44), b"")]
     d.update(kw)
     return Pol(**d)
 
